@@ -169,7 +169,7 @@ Definition jsonarr_step (c : bool) (lim pas : nat) (es : list entry) (d : dstate
       match nth_error es i with
       | None => DErr EPanic
       | Some e =>
-          let p := if (0 <? ammoNum d) && (i =? len - 1) then S (passNum d) else passNum d in
+          let p := if i =? len - 1 then S (passNum d) else passNum d in           (* d.passNum++ *)
           DAmmo e {| ammoNum := S (ammoNum d); passNum := p; pos := 0; inloop := false; iter := 0 |}
       end.
 
@@ -197,7 +197,7 @@ Definition is_limit_err (e : err) : bool :=
 
 (* what Provider.Run hands back for the error of runFullScan / runPreloaded *)
 Definition fullscan_result (e : err) : outcome := if is_limit_err e then Ok else Failed e.
-Definition preloaded_result (e : err) : outcome := Failed e.
+Definition preloaded_result (e : err) : outcome := if is_limit_err e then Ok else Failed e.
 
 Definition http_step (k : dkind) (cf : cfg) (es : list entry) (c : bool) (s : hstate) : sres hstate :=
   match s with
@@ -250,20 +250,20 @@ Definition http_run (k : dkind) (preload : bool) (cf : cfg) (es : list entry)
   run_steps (http_step k cf es) cancel fuel 0 (http_init preload).
 
 (* ------------------------------------------------------------------------------------ *)
-(* components/providers/scenario/provider.go Provider.Run: cyclic index, sink never closed *)
+(* components/providers/scenario/provider.go Provider.Run: cyclic index; `defer close(p.sink)` *)
 
 Definition scen_step (cf : cfg) (es : list entry) (c : bool) (a : nat) : sres nat :=
   match length es with
-  | 0 => Stop (Failed ENoAmmo) false
+  | 0 => Stop (Failed ENoAmmo) true
   | S _ =>
-      if c then Stop (Failed ECtx) false
+      if c then Stop (Failed ECtx) true
       else
         let i := a mod length es in
         let p := a / length es in
-        if nz (passes cf) && (passes cf <=? p) then Stop (Failed EPassLimit) false
-        else if nz (limit cf) && (limit cf <=? a) then Stop (Failed EAmmoLimit) false
+        if nz (passes cf) && (passes cf <=? p) then Stop Ok true          (* return nil *)
+        else if nz (limit cf) && (limit cf <=? a) then Stop Ok true       (* return nil *)
         else match nth_error es i with
-             | None => Stop (Failed EPanic) false
+             | None => Stop (Failed EPanic) true
              | Some e => Emit e (S a)
              end
   end.
@@ -277,9 +277,11 @@ Definition scen_run (cf : cfg) (es : list entry) (cancel : option nat) (fuel : n
 Record gstate := { g_ammo : nat; g_pass : nat; g_pos : nat; g_inner : bool }.
 Definition ginit : gstate := {| g_ammo := 0; g_pass := 0; g_pos := 0; g_inner := false |}.
 
-(* after the inner loop: scanner.Err(); `if p.Passes != 0 && passNum >= p.Passes { break }`; Seek *)
+(* after the inner loop: scanner.Err(); `if p.Limit != 0 && ammoNum >= p.Limit { break }`;
+   `if p.Passes != 0 && passNum >= p.Passes { break }`; Seek *)
 Definition g_after (cf : cfg) (g : gstate) : sres gstate :=
-  if nz (passes cf) && (passes cf <=? g_pass g) then Stop Ok true
+  if nz (limit cf) && (limit cf <=? g_ammo g) then Stop Ok true
+  else if nz (passes cf) && (passes cf <=? g_pass g) then Stop Ok true
   else Cont {| g_ammo := g_ammo g; g_pass := g_pass g; g_pos := 0; g_inner := false |}.
 
 Definition grpcjson_step (cf : cfg) (es : list entry) (c : bool) (g : gstate) : sres gstate :=
@@ -398,3 +400,9 @@ Definition spec_b (lim pas : nat) (es : list entry) (cancel : option nat) (order
       else (m <=? k) && (k <=? b) && (k <=? m + slack) && is_rok_or_canceled rc
   | Some m, None => (m <=? k) && (k <=? m + slack) && is_rok_or_canceled rc
   end.
+
+(* The consumer side: what the next Acquire of any instance does once the provider is done
+   and the sink is drained (receive from a closed channel returns !ok; from an open empty
+   channel it blocks). *)
+Inductive acq := AcqEndOfAmmo | AcqBlocked.
+Definition acquire_after (r : result) : acq := if closed r then AcqEndOfAmmo else AcqBlocked.
